@@ -2,9 +2,10 @@
 import os
 import re
 
-from verif import build, proc
+from verif import build, core, proc
 from verif.gen import faults as gen
 from verif.oracles import faults as oracle
+from verif.oracles import faults_selftest as selftest
 
 META = {
     "id": "C10", "engine": "E1 s4u harness (scripted actors + fault injector)", "engine_path": "harness/faults.cpp",
@@ -158,66 +159,88 @@ def judge_run(ctx, fl, sc, run, text, status, err):
     return False
 
 
-def process_scenario(ctx, i, sc, directed_runs=None, flavours=("hooks", "asan")):
-    """Fault-free run, enumeration, fault runs on both flavours."""
-    res = run_batch("hooks", sc, [{"id": "base", "path": "N", "faults": []}], timeout=300)
+def plan_scenario(ctx, i, sc, directed_runs=None, flavours=("hooks", "asan")):
+    """Fault-free run + enumeration of the fault points: returns the list of (flavour, name, scenario, chunk of runs)."""
+    base = {"id": "base", "path": "N", "faults": []}
+    res = run_batch("hooks", sc, [base], timeout=600)
     if res.timed_out:
         ctx.inconclusive("base run watchdog")
-        return
+        return []
     runs = split_runs(res.out)
     if "base" not in runs or not runs["base"][1].startswith("rc=0"):
-        ctx.violation("C10:crash:base", "the fault-free run died: %r %r" % (runs.get("base", ("", "?"))[1], res.err[-600:]), {"flavour": "hooks", "scenario": sc,
-                                                                                                                       "run": {"id": "base", "path": "N", "faults": []}})
-        return
+        st = runs.get("base", ("", "missing"))[1]
+        key, rep = crash_key(st, res.err)
+        ctx.violation(key + ":fault-free", "the fault-free run died (%s): %s\n%s" % (st, rep, gen.to_text(sc, [base])), {"flavour": "hooks", "scenario": sc, "run": base})
+        return []
     dates = base_dates(sc, runs["base"][0])
     if dates is None:
         ctx.count("scenarios_discarded_base_run_not_clean")
-        return
+        return []
     # the fault-free run goes through the same checker (nothing may fail)
-    judge_run(ctx, "hooks", sc, {"id": "base", "path": "N", "faults": []}, runs["base"][0], "rc=0", res.err)
+    judge_run(ctx, "hooks", sc, base, runs["base"][0], "rc=0", res.err)
     rng = ctx.sub_rng("faults", i)
     thorough = ctx.tier == "thorough"
     if directed_runs is not None:
         todo = directed_runs
     else:
-        todo = gen.single_faults(sc, dates, rng, all_paths=thorough, limit=None if thorough else ctx.size(260, 260))
-        todo += gen.pair_faults(sc, dates, rng, ctx.size(12, 40))
-    ctx.count("fault_points_enumerated", len(todo))
+        todo = gen.single_faults(sc, dates, rng, all_paths=thorough, limit=None if thorough else ctx.size(200, 200))
+        todo += gen.pair_faults(sc, dates, rng, ctx.size(10, 60))
+    ctx.count("scenarios_enumerated")
+    ctx.count("fault_schedules_enumerated", len(todo))
     ctx.maximum("event_dates_in_a_scenario", len(dates))
+    chunks = []
+    only = os.environ.get("VERIF_C10_FLAVOURS")     # development aid (e.g. "hooks" when the sanitized tree of a scratch worktree is not built)
     for fl in flavours:
-        sub = todo if (fl == "hooks" or directed_runs is not None or isinstance(i, str)) else todo[::10]
-        # one process per chunk so that a watchdog costs one chunk, not the scenario
-        for c in range(0, len(sub), 150):
-            chunk = sub[c:c + 150]
-            r = run_batch(fl, sc, chunk, timeout=900)
-            got = split_runs(r.out)
-            errs = split_err(r.err)
-            if r.timed_out:
-                ctx.inconclusive("batch watchdog")
-            for run in chunk:
-                if run["id"] not in got:
-                    if not r.timed_out:
-                        ctx.inconclusive("run missing from the batch output")
-                    continue
-                text, status = got[run["id"]]
-                if judge_run(ctx, fl, sc, run, text, status, errs.get(run["id"], "")):
-                    ctx.nontrivial({"scenario": sc, "faults": run["faults"], "path": run["path"]})
+        if only and fl not in only.split(","):
+            continue
+        # the sanitized flavour costs ~10x more per run: it gets every explicit directed run and a tenth of the enumerations
+        sub = todo if (fl == "hooks" or directed_runs is not None) else todo[::10]
+        for c in range(0, len(sub), 40):
+            chunks.append((fl, i, sc, sub[c:c + 40]))
+    return chunks
+
+
+def run_chunk(ctx, fl, name, sc, chunk, selftest_budget):
+    r = run_batch(fl, sc, chunk, timeout=1800)
+    got = split_runs(r.out)
+    errs = split_err(r.err)
+    if r.timed_out:
+        ctx.inconclusive("batch watchdog")
+    for run in chunk:
+        if run["id"] not in got:
+            if not r.timed_out:
+                ctx.inconclusive("run missing from the batch output")
+            continue
+        text, status = got[run["id"]]
+        if judge_run(ctx, fl, sc, run, text, status, errs.get(run["id"], "")):
+            ctx.nontrivial({"scenario": sc, "faults": run["faults"], "path": run["path"]})
+            if name == "probe" and fl == "hooks" and selftest_budget and selftest_budget[0] > 0:
+                # oracle self-test on healthy, non-trivial logs of the directed scenario: every corruption must be caught
+                selftest_budget[0] -= 1
+                a, d, missed = selftest.selftest(sc, run, text)
+                ctx.count("selftest.corruptions_applied", a)
+                ctx.count("selftest.corruptions_detected", d)
+                if missed:
+                    raise core.HarnessFailure("oracle self-test: corruption not detected: %s" % missed[0])
 
 
 def run(ctx):
-    n = ctx.size(10, 60)
-    for fl in ("hooks", "asan"):
+    n = ctx.size(8, 40)
+    for fl in (os.environ.get("VERIF_C10_FLAVOURS") or "hooks,asan").split(","):
         build.harness("faults.cpp", fl)
     scs = [gen.gen(ctx.sub_rng("scenario", i), small=(i % 2 == 0)) for i in range(n)]
     ctx.sample({"generated[0]": gen.to_text(scs[0], [])})
     ctx.sample({"directed[%s]" % gen.DIRECTED[2][0]: gen.to_text(gen.DIRECTED[2][1], gen.DIRECTED[2][2])})
-    jobs = [("directed", name, sc, runs, fls) for name, sc, runs, fls in gen.DIRECTED]
-    jobs += [("gen", i, sc, None, ("hooks", "asan")) for i, sc in enumerate(scs)]
-
-    def one(j):
-        kind, i, sc, dr, fls = j
-        process_scenario(ctx, i, sc, dr, fls)
-    ctx.pmap(one, jobs)
+    jobs = [(name, sc, runs, fls) for name, sc, runs, fls in gen.DIRECTED]
+    jobs += [(i, sc, None, ("hooks", "asan")) for i, sc in enumerate(scs)]
+    plans = ctx.pmap(lambda j: plan_scenario(ctx, *j), jobs)
+    chunks = [c for p in plans for c in p]
+    # expensive chunks first
+    chunks.sort(key=lambda c: (c[0] != "asan", -len(c[3])))
+    budget = [24]
+    ctx.pmap(lambda c: run_chunk(ctx, c[0], c[1], c[2], c[3], budget), chunks)
+    if ctx.counters.get("selftest.corruptions_applied", 0) == 0:
+        raise core.HarnessFailure("the oracle self-test did not run (no healthy non-trivial run of the directed probe scenario)")
 
 
 def replay(ctx, w):
